@@ -1,6 +1,6 @@
 (* C06 — A memoized rule body runs at most once per input position (packrat bound). *)
 From PegV Require Import Utf8 State Terminals Syntax Fields Literals Model Inv Memo Extracted.
-From PegV Require WellFormed Once.
+From PegV Require WellFormed OnceWF Once OnceExamples.
 
 Theorem C06_facts :
   memo_closed Extracted.rcfg = true /\ Extracted.file_codegen_src_rule_rs = true /\
@@ -76,3 +76,64 @@ Proof.
   exact (Once.at_most_once ustate scfg tcfg fcfg Extracted.rcfg hk g nul rk W NoLR eq_refl).
 Qed.
 Print Assumptions C06_at_most_once.
+
+(* ---- grammars with @leftrec rules ---------------------------------------------------------
+   The quantifier of the property allows @leftrec rules beside the memoized ones.  The bound holds
+   for every grammar that passes OnceWF.wf_check_once: the certificate of C01 in which the body of a
+   @leftrec rule is ranked like every other body, except that the rule's own name inside its own body
+   needs no rank - while the rule is open at an offset its own calls there are answered from the
+   cache (sentinel or seed) and start nothing.  The growth loop re-runs the body at the same
+   offset: the memoized rules it reaches there were entered on the first turn and are hits on
+   every later one.  Without @leftrec rules the check is WellFormed.wf_check (C06_at_most_once is
+   this theorem's corollary). *)
+Theorem C06_at_most_once_lr :
+  forall (ustate : Type) (scfg : state_cfg) (tcfg : term_cfg) (fcfg : fields_cfg) (hk : hooks ustate)
+         (g : grammar) (nul : name -> bool) (rk : WellFormed.runit -> nat),
+    OnceWF.wf_check_once g nul rk = true ->
+    forall n rule_name input u,
+    match m_parse ustate scfg tcfg fcfg Extracted.rcfg hk g n rule_name input u with
+    | (MOk _ _, gl') | (MErr _, gl') =>
+      NoDup (g_evals gl') /\
+      Forall (fun e => In (fst e) (Once.mnames g) /\ snd e <= length input) (g_evals gl') /\
+      length (g_evals gl') <= length (Once.mnames g) * S (length input)
+    | _ => True
+    end.
+Proof.
+  intros ustate scfg tcfg fcfg hk g nul rk W.
+  exact (Once.at_most_once_lr ustate scfg tcfg fcfg Extracted.rcfg hk g nul rk W eq_refl).
+Qed.
+Print Assumptions C06_at_most_once_lr.
+
+(* the computed certificate: a grammar is an instance as soon as OnceWF.well_formed_once says so
+   (the harness evaluates the extracted function on every stream grammar) *)
+Theorem C06_certified_instances :
+  forall (ustate : Type) (scfg : state_cfg) (tcfg : term_cfg) (fcfg : fields_cfg) (hk : hooks ustate) (g : grammar),
+    OnceWF.well_formed_once g = true ->
+    forall n rule_name input u,
+    match m_parse ustate scfg tcfg fcfg Extracted.rcfg hk g n rule_name input u with
+    | (MOk _ _, gl') | (MErr _, gl') => NoDup (g_evals gl')
+    | _ => True
+    end.
+Proof.
+  intros ustate scfg tcfg fcfg hk g W n rule_name input u. unfold OnceWF.well_formed_once in W.
+  pose proof (C06_at_most_once_lr ustate scfg tcfg fcfg hk g _ _ W n rule_name input u) as H.
+  destruct (m_parse ustate scfg tcfg fcfg Extracted.rcfg hk g n rule_name input u) as [[v st|e|p|] gl']; try exact I; tauto.
+Qed.
+Print Assumptions C06_certified_instances.
+
+(* not vacuous: left-recursive E over memoized T and N is certified ... *)
+Theorem C06_lr_memo_certified : OnceWF.well_formed_once OnceExamples.g_lr_memo = true.
+Proof. exact OnceExamples.lr_memo_certified. Qed.
+Print Assumptions C06_lr_memo_certified.
+
+(* ... and the certificate is what separates the known finding c06:reentrant-through-leftrec:
+   @memoize M = a:A 'm' | 'k';  @leftrec A = m:*M 'x' | 'b';  is rejected, and on it the bound fails
+   in the model exactly as in the generated parser (M's body is started twice at offset 0 on "bm") *)
+Theorem C06_reentrant_not_certified : OnceWF.well_formed_once OnceExamples.g_reentrant = false.
+Proof. exact OnceExamples.reentrant_not_certified. Qed.
+Print Assumptions C06_reentrant_not_certified.
+
+Theorem C06_refuted_through_leftrec :
+  exists v st gl, OnceExamples.run_reentrant [98; 109]%N = (MOk v st, gl) /\ ~ NoDup (g_evals gl).
+Proof. exact OnceExamples.reentrant_evaluated_twice. Qed.
+Print Assumptions C06_refuted_through_leftrec.
